@@ -146,6 +146,65 @@ def run(rep, tier, seed, replay):
         else:
             rep.violation("oracle", bad, c.describe(), impl=c.impl[:500])
     rep.extra["direct_oracle_walks"] = len(direct)
+    # ---- a glob walk followed by a pure observer: a directory whose name its component program rejects is discarded
+    # as a tree, so nothing beneath it is shown downstream (the component programs are those the crate compiled, by the
+    # hook; raw regex matching of a name against a program)
+    if replay is None or (replay["input"].get("mode") == "g" and replay["input"].get("stack") == "f:"):
+        gobs = [c for c in walklib.gen_cases(seed + 4, 420 if tier == "quick" else 5000, stack=lambda r, v, d: ("f:", "o", []), bounds="none", mode="g", link="f")
+                if c.labels["base"] in ("root", "subdir") and not c.expr.startswith(("/", "@ROOT", "."))]
+        if replay is not None:
+            gobs = [walklib.case_from(replay["input"])]
+        walklib.run_cases(gobs)
+        rep.evaluations += len(gobs)
+        walklib.correspondence_step(rep, gobs, "glob walk then observer")
+        hh = common.harness()
+        wps = hh.ask(["WP - %s" % hx(c.expr) for c in gobs])
+        reqs, owner = [], []
+        info = {}
+        for ci, (c, wp) in enumerate(zip(gobs, wps)):
+            if not c.head.startswith("root=") or " pivot=0 " not in wp + " ":
+                continue
+            f = dict(x.split("=", 1) for x in wp.split(" ") if "=" in x)
+            progs = [] if f.get("progs", "-") == "-" else f["progs"].split(";")
+            if not progs:
+                continue
+            base = unhx(c.f["base"]).rstrip("/")
+            logs = c.f.get("logs", "-")
+            fed = [unhx(x.split(":")[0]).rstrip("/") for x in walklib.items(logs.split("|")[0])] if logs != "-" else []
+            info[ci] = (progs, base, fed)
+            names = set()
+            for pth in fed:
+                rel = pth[len(base):].strip("/")
+                comps = rel.split("/") if rel else []
+                for i, nm in enumerate(comps[:-1]):          # proper ancestors only
+                    if i < len(progs):
+                        names.add((i, nm))
+            for i, nm in sorted(names):
+                reqs.append("RX %s %s" % (progs[i], hx(nm)))
+                owner.append((ci, i, nm))
+        rejected = {}
+        for (ci, i, nm), line in zip(owner, hh.ask(reqs)):
+            if line.startswith("nomatch"):
+                rejected.setdefault(ci, set()).add((i, nm))
+        for ci, (progs, base, fed) in info.items():
+            c = gobs[ci]
+            bad = None
+            for pth in fed:
+                rel = pth[len(base):].strip("/")
+                comps = rel.split("/") if rel else []
+                for i, nm in enumerate(comps[:-1]):
+                    if (i, nm) in rejected.get(ci, set()):
+                        bad = (pth, "/".join(comps[:i + 1]), i)
+                        break
+                if bad:
+                    break
+            if bad:
+                rep.violation("oracle", "the observer after the glob walk is fed %r, which lies beneath %r, a directory whose name component program %d of the glob rejects (discarded as a tree)" % bad,
+                              c.describe(), impl=c.impl[:500])
+            else:
+                rep.stats["glob-observer: nothing beneath a directory rejected by its component program is fed"] += 1
+                if rejected.get(ci):
+                    rep.distinct.add(c.req())
     # ---- a negation (any of exhaustive and other patterns) followed by a pure observer: nothing beneath a directory
     # that an always-exhaustive member matches is shown downstream, and only such entries are missing
     if replay is None or replay["input"].get("stack", "").endswith(";f:"):
